@@ -101,6 +101,9 @@ def decimal(value: _decimal.Decimal) -> bytes:
         raise ValueError('Can not encode a non-finite decimal: {}'.format(
             value))
     decimals = max(0, -value.as_tuple().exponent)
+    if value and value.adjusted() + decimals > 9:
+        # More digits than a 32-bit integer has: refuse without building them
+        raise struct.error('decimal value out of range: {!r}'.format(value))
     return struct.pack(
         '>Bi', decimals,
         int(value.scaleb(decimals, context=common.DecimalContext)))
